@@ -580,7 +580,11 @@ class TorrentFileV2(MetaFile, ProgMixin):
         file_tree = {}
         if os.path.isdir(path):
             for name in sorted(os.listdir(path)):
-                file_tree[name] = self._traverse(os.path.join(path, name))
+                child = os.path.join(path, name)
+                # a broken link or a special file is not part of the payload
+                if not (os.path.isfile(child) or os.path.isdir(child)):
+                    continue
+                file_tree[name] = self._traverse(child)
         return file_tree
 
 
@@ -682,7 +686,11 @@ class TorrentFileHybrid(MetaFile, ProgMixin):
         tree = {}
         if os.path.isdir(path):
             for name in sorted(os.listdir(path)):
-                tree[name] = self._traverse(os.path.join(path, name))
+                child = os.path.join(path, name)
+                # a broken link or a special file is not part of the payload
+                if not (os.path.isfile(child) or os.path.isdir(child)):
+                    continue
+                tree[name] = self._traverse(child)
         return tree
 
 
@@ -798,5 +806,9 @@ class TorrentAssembler(MetaFile, ProgMixin):
         tree = {}
         if os.path.isdir(path):
             for name in sorted(os.listdir(path)):
-                tree[name] = self._traverse(os.path.join(path, name))
+                child = os.path.join(path, name)
+                # a broken link or a special file is not part of the payload
+                if not (os.path.isfile(child) or os.path.isdir(child)):
+                    continue
+                tree[name] = self._traverse(child)
         return tree
